@@ -114,6 +114,7 @@ func (iloc *itemLoc) Copy(src *itemLoc) {
 	// evict the item, so an item seen missing implies a location seen set.
 	// The other order could copy "no location" and then "no item".
 	item := src.item
+	verifYield("itemloc.copy", nil)
 	iloc.loc = src.loc
 	iloc.item = item
 }
@@ -235,6 +236,7 @@ func (iloc *itemLoc) read(c *Collection, withValue bool) (icur *Item, err error)
 // NumBytes return the number of bytes needed for the collection
 func (iloc *itemLoc) NumBytes(c *Collection) int {
 	i := iloc.Item() // Before the location, see Copy().
+	verifYield("itemloc.numbytes", nil)
 	loc := iloc.Loc()
 	if loc.isEmpty() {
 		if i == nil {
